@@ -2768,7 +2768,7 @@ static Type *union_decl(Token **rest, Token *tok) {
       continue;
     }
 
-    if (ty->align < mem->align)
+    if (!ty->is_packed && ty->align < mem->align)
       ty->align = mem->align;
     if (ty->size < mem->ty->size)
       ty->size = mem->ty->size;
